@@ -16,6 +16,9 @@ import (
 
 	"github.com/nspcc-dev/neo-go/pkg/config"
 	"github.com/nspcc-dev/neo-go/pkg/core"
+	"github.com/nspcc-dev/neo-go/pkg/core/block"
+	"github.com/nspcc-dev/neo-go/pkg/core/transaction"
+	"github.com/nspcc-dev/neo-go/pkg/smartcontract/trigger"
 	"github.com/nspcc-dev/neo-go/pkg/core/storage"
 	"github.com/nspcc-dev/neo-go/pkg/core/storage/dbconfig"
 )
@@ -27,6 +30,7 @@ func (noClose) Close() error { return nil }
 type step struct {
 	Op string `json:"op"`
 	R  string `json:"r"`
+	N  int    `json:"n,omitempty"` // "addq": number of blocks added without observation
 }
 
 type replicaCfg struct {
@@ -41,6 +45,7 @@ type replica struct {
 	mem   storage.Store
 	bc    *core.Blockchain
 	up    bool
+	retired bool // diverged for a listed (known) reason: no longer a replica of this world
 	h     uint32
 	lastD chainkit.Digest
 }
@@ -58,6 +63,7 @@ type world struct {
 	refFlat    [][]item   // C03: flat storage after block i+1
 	refScripts [][][]byte // C03: read-only scripts evaluated live at height i+1
 	rnd        *rand.Rand
+	refInv     map[uint32][]string // test-invocation answers of the reference node per observed height (diagnostics)
 }
 
 func (w *world) hook(node func(*config.Blockchain)) func(*config.Blockchain) {
@@ -80,8 +86,22 @@ func (w *world) ensure(t *testing.T, h uint32, tr *vh.Trace) error {
 			return err
 		}
 		w.blocks = append(w.blocks, raw)
+		if w.gen.IsQuiet(b.Index) {
+			// the long stretch of empty blocks of a long-chain world: not observed
+			w.refD = append(w.refD, nil)
+			if c03() {
+				w.refFlat = append(w.refFlat, nil)
+				w.refScripts = append(w.refScripts, nil)
+			}
+			tr.Emit(map[string]any{"event": "ref", "h": b.Index, "digest": map[string]string{"unobserved": "1"}, "ntx": len(b.Transactions)})
+			continue
+		}
 		d := chainkit.Compute(w.ref)
 		w.refD = append(w.refD, d)
+		if w.refInv == nil {
+			w.refInv = map[uint32][]string{}
+		}
+		w.refInv[b.Index] = chainkit.TestInvocations(w.ref)
 		ev := map[string]any{"event": "ref", "h": b.Index, "digest": d, "ntx": len(b.Transactions)}
 		if c03() {
 			fl := flat(w.ref)
@@ -144,6 +164,37 @@ func configs(thorough bool) []replicaCfg {
 	return c
 }
 
+// longSchedule is the schedule of a long-chain world: a phase of ordinary activity, a stretch of empty blocks long
+// enough for the collecting replicas to really remove old blocks and transactions (block removal trails the stored
+// header-hash pages: nothing is removed below two pages of 2000), then activity again - answers to oracle requests
+// whose requesting transaction has been collected, contracts looking at the ledger's past.
+func longSchedule(names []string, quietFrom, quietTo, last uint32) []step {
+	var s []step
+	for h := uint32(1); h < quietFrom; h++ {
+		for _, n := range names {
+			s = append(s, step{Op: "add", R: n})
+			if h%4 == 0 {
+				s = append(s, step{Op: "flush", R: n})
+			}
+		}
+	}
+	for _, n := range names {
+		s = append(s, step{Op: "addq", R: n, N: int(quietTo - quietFrom + 1)})
+	}
+	for h := quietTo + 1; h <= last; h++ {
+		for i, n := range names {
+			s = append(s, step{Op: "add", R: n})
+			if (int(h)+i)%3 == 0 {
+				s = append(s, step{Op: "flush", R: n})
+			}
+			if h == quietTo+9 && i%2 == 1 {
+				s = append(s, step{Op: "stop", R: n}, step{Op: "restart", R: n})
+			}
+		}
+	}
+	return s
+}
+
 func runWorld(t *testing.T, res *vh.Result, tr *vh.Trace, wi int, sched []step, srih bool, smallMTB bool) {
 	dir, err := os.MkdirTemp(os.Getenv("VERIF_WORK"), "c01w")
 	if err != nil {
@@ -171,6 +222,18 @@ func runWorld(t *testing.T, res *vh.Result, tr *vh.Trace, wi int, sched []step, 
 		reps[c.Name] = &replica{cfg: c}
 		names = append(names, c.Name)
 	}
+	if sched == nil { // long-chain world
+		const quietFrom, quietTo, last = 26, 4045, 4045 + 34
+		w.gen.QuietFrom, w.gen.QuietTo = quietFrom, quietTo
+		w.gen.AvoidOldOracle = wi%2 == 0
+		if !w.gen.AvoidOldOracle {
+			w.gen.ScriptOldOracle(quietTo + 2)
+		}
+		for k, v := range map[string]int{"oraclereq": 9, "oracleresp": 12, "ledger": 9, "role": 5, "deploy": 4, "vote": 3, "neo": 3, "policy": 2} {
+			w.gen.Weights[k] = v
+		}
+		sched = longSchedule(names, quietFrom, quietTo, last)
+	}
 	tr.Emit(map[string]any{"event": "init", "world": wi, "replicas": names, "srih": srih, "small_mtb": smallMTB})
 	for _, n := range names {
 		if err := reps[n].open(w, dir); err != nil {
@@ -187,7 +250,7 @@ func runWorld(t *testing.T, res *vh.Result, tr *vh.Trace, wi int, sched []step, 
 	var done []step
 	for _, s := range sched {
 		r := reps[s.R]
-		if r == nil {
+		if r == nil || r.retired {
 			continue
 		}
 		done = append(done, s)
@@ -214,11 +277,47 @@ func runWorld(t *testing.T, res *vh.Result, tr *vh.Trace, wi int, sched []step, 
 			r.h++
 			r.lastD = chainkit.Compute(r.bc)
 			ev["h"], ev["digest"] = r.h, r.lastD
+			if rd := w.refD[r.h-1]; rd != nil && (rd["aers"] != r.lastD["aers"] || rd["stateroot"] != r.lastD["stateroot"]) {
+				ev["diag"] = diagnose(w.ref, r.bc, b) // information for the reader of a replay, not judged
+				if g := w.ground(r.bc, b); g != "" {
+					ev["ground"] = g
+					r.retired = true
+				}
+			} else if rd != nil && rd["invoke"] != r.lastD["invoke"] {
+				ev["diag"] = invDiff(w.refInv[r.h], chainkit.TestInvocations(r.bc))
+			}
 			if c03() {
 				tr.Emit(ev)
 				ev = nil
 				w.observe(tr, r)
 			}
+		case "addq":
+			if !r.up {
+				continue
+			}
+			for k := 0; k < s.N; k++ {
+				if err := w.ensure(t, r.h+1, tr); err != nil {
+					t.Fatalf("generator: %v", err)
+				}
+				b, err := chainkit.DecodeBlock(w.blocks[r.h], srih)
+				if err != nil {
+					t.Fatal(err)
+				}
+				if err := r.bc.AddBlock(b); err != nil {
+					res.Violate(map[string]any{"kind": "valid-block-rejected", "cfg": r.cfg.Name},
+						fmt.Sprintf("replica %s rejected block %d accepted by the reference: %v", r.cfg.Name, b.Index, err),
+						map[string]any{"world": wi, "long": true, "seed": vh.Seed()})
+					return
+				}
+				r.h++
+				if r.h%150 == 0 {
+					if err := r.bc.VerifPersist(); err != nil {
+						t.Fatalf("persist: %v", err)
+					}
+				}
+			}
+			ev["event"], ev["h"] = "skip", r.h
+			res.Inc("long_world_unobserved_adds", s.N)
 		case "flush":
 			if !r.up {
 				continue
@@ -247,6 +346,9 @@ func runWorld(t *testing.T, res *vh.Result, tr *vh.Trace, wi int, sched []step, 
 			}
 			r.lastD = chainkit.Compute(r.bc)
 			ev["h"], ev["digest"], ev["expected_h"] = r.bc.BlockHeight(), r.lastD, r.h
+			if ri := w.refInv[r.bc.BlockHeight()]; ri != nil && r.bc.BlockHeight() >= 1 && w.refD[r.bc.BlockHeight()-1]["invoke"] != r.lastD["invoke"] {
+				ev["diag"] = invDiff(ri, chainkit.TestInvocations(r.bc))
+			}
 			r.h = r.bc.BlockHeight()
 		case "pool":
 			if !r.up {
@@ -292,6 +394,10 @@ func TestDriver(t *testing.T) {
 	}
 	for i, s := range scheds {
 		runWorld(t, res, tr, i, s, i%3 == 1, i%2 == 0)
+	}
+	for i := 0; i < vh.EnvInt("VERIF_LONG_WORLDS", 0); i++ {
+		runWorld(t, res, tr, 1000+i, nil, i%2 == 1, true)
+		res.Inc("long_worlds", 1)
 	}
 	tr.Close()
 	b, _ := json.Marshal(res.Stats)
@@ -348,4 +454,63 @@ func (w *world) observe(tr *vh.Trace, r *replica) {
 			tr.Emit(map[string]any{"event": "historic", "r": who, "at": r.h, "h": hh, "results": rs})
 		}
 	}
+}
+
+// diagnose describes how the execution results of block b differ between the reference node and a replica.
+func diagnose(ref, rep *core.Blockchain, b *block.Block) []string {
+	var out []string
+	for i, tx := range b.Transactions {
+		a, e1 := ref.GetAppExecResults(tx.Hash(), trigger.Application)
+		c, e2 := rep.GetAppExecResults(tx.Hash(), trigger.Application)
+		if e1 != nil || e2 != nil || len(a) != 1 || len(c) != 1 {
+			out = append(out, fmt.Sprintf("tx %d %s: results ref=%d/%v replica=%d/%v", i, tx.Hash().StringLE(), len(a), e1, len(c), e2))
+			continue
+		}
+		if a[0].VMState != c[0].VMState || a[0].GasConsumed != c[0].GasConsumed || a[0].FaultException != c[0].FaultException || len(a[0].Events) != len(c[0].Events) {
+			attrs := ""
+			for _, at := range tx.Attributes {
+				attrs += at.Type.String() + " "
+			}
+			out = append(out, fmt.Sprintf("tx %d %s attrs[%s] script %x: ref %s gas %d %q events %d | replica %s gas %d %q events %d", i, tx.Hash().StringLE(), attrs,
+				tx.Script[:min(len(tx.Script), 80)], a[0].VMState, a[0].GasConsumed, a[0].FaultException, len(a[0].Events), c[0].VMState, c[0].GasConsumed, c[0].FaultException, len(c[0].Events)))
+		}
+	}
+	return out
+}
+
+func invDiff(a, b []string) []string {
+	var out []string
+	for i := 0; i < len(a) || i < len(b); i++ {
+		x, y := "-", "-"
+		if i < len(a) {
+			x = a[i]
+		}
+		if i < len(b) {
+			y = b[i]
+		}
+		if x != y {
+			out = append(out, "ref "+x+" | replica "+y)
+		}
+	}
+	return out
+}
+
+// ground recognises the one listed reason for which a collecting replica may execute block b differently from the
+// reference node: b answers an oracle request whose requesting transaction the replica has already collected
+// (Oracle.finish reads that transaction for its signers). Everything else has no ground.
+func (w *world) ground(rep *core.Blockchain, b *block.Block) string {
+	for _, tx := range b.Transactions {
+		for _, a := range tx.GetAttributes(transaction.OracleResponseT) {
+			rq, ok := w.gen.ReqTx[a.Value.(*transaction.OracleResponse).ID]
+			if !ok {
+				continue
+			}
+			_, _, e1 := w.ref.GetTransaction(rq)
+			_, _, e2 := rep.GetTransaction(rq)
+			if e1 == nil && e2 != nil {
+				return "oracle-response-original-tx-collected"
+			}
+		}
+	}
+	return ""
 }
